@@ -1,8 +1,5 @@
 package main
 
-func genPolicySites(p *pkgInfo) string {
-	return "-- GENERATED (stub)\nnamespace Gowarc.Gen\nend Gowarc.Gen\n"
-}
 func genSyncSkeleton(p *pkgInfo) string {
 	return "-- GENERATED (stub)\nnamespace Gowarc.Gen\nend Gowarc.Gen\n"
 }
